@@ -357,8 +357,10 @@ def random_lookup(ctx, count):
 def run(ctx):
     install_lookup_monitor(ctx)
     try:
-        exhaustive_lookup(ctx, [5] if ctx.tier == "quick" else [6, 7, 8], ctx.rng("exh"))
-        random_lookup(ctx, ctx.quota(700, 150000))
+        with ctx.phase(0.4):
+            exhaustive_lookup(ctx, [5] if ctx.tier == "quick" else [6, 7, 8], ctx.rng("exh"))
+        with ctx.phase(0.25):
+            random_lookup(ctx, ctx.quota(700, 150000))
         rng = ctx.rng("worlds")
         for i in ctx.cases(ctx.quota(500, 100000)):
             case = gen_world(rng)
